@@ -73,6 +73,7 @@ pub fn customs(_args: &[String]) -> Result<Value> {
     layouts.push(vec![(2, "", payloads[4].clone()), (4, "nam", payloads[3].clone()), (4, "producer", payloads[0].clone()), (5, "debug_x", payloads[1].clone())]);
     layouts.push(vec![(5, "z", payloads[0].clone()), (5, "y", payloads[0].clone()), (5, "x", payloads[0].clone()), (0, "linking", payloads[3].clone())]);
     layouts.push(vec![(5, ".debugger", payloads[2].clone()), (5, ".debug", payloads[1].clone())]);
+    layouts.push(vec![(1, "big", vec![0xab; 70_000]), (5, "bigger", (0..200_000u32).map(|i| (i % 251) as u8).collect())]);
     layouts.push(vec![(3, "sourceMappingURL", b"\x10http://x/y.map".to_vec()), (5, "target_features", b"\x01+\x0bbulk-memory".to_vec())]);
     let mut failures = vec![];
     let mut checked = 0;
